@@ -548,6 +548,7 @@ func (sw *SlidingWindow) checkAndTriggerWindows(watermarkTime time.Time) {
 		} else {
 			debugLogSliding("checkAndTriggerWindows: window [%v, %v) has no data, skipping trigger",
 				windowStart.UnixMilli(), windowEnd.UnixMilli())
+			sw.skipEmptySlotsLocked(watermarkTime)
 		}
 	}
 
@@ -848,6 +849,36 @@ func (sw *SlidingWindow) createSlot(t time.Time) *types.TimeSlot {
 	end := start.Add(sw.size)
 	slot := types.NewTimeSlot(&start, &end)
 	return slot
+}
+
+// skipEmptySlotsLocked moves the cursor (already advanced past an empty window) to
+// the first window that can still hold something: the earliest window covering a
+// buffered row at or after the cursor or, when nothing is buffered there, the first
+// window whose end lies beyond the watermark. All windows in between are empty.
+// Stepping through them one slide at a time takes billions of iterations under the
+// window lock when the watermark jumps far ahead of the cursor (idle timeout over
+// historic timestamps) and stalls Add and Stop.
+func (sw *SlidingWindow) skipEmptySlotsLocked(watermarkTime time.Time) {
+	if sw.currentSlot == nil {
+		return
+	}
+	cur := *sw.currentSlot.Start
+	// first window start (multiple of the slide) strictly after t - size: the earliest window containing t
+	firstCovering := func(t time.Time) time.Time {
+		return alignWindowStart(t.Add(-sw.size), sw.slide).Add(sw.slide)
+	}
+	target := firstCovering(watermarkTime)
+	for _, item := range sw.data {
+		if item.Timestamp.Before(cur) {
+			continue
+		}
+		if s := firstCovering(item.Timestamp); s.Before(target) {
+			target = s
+		}
+	}
+	if target.After(cur) {
+		sw.currentSlot = sw.createSlotFromStart(target)
+	}
 }
 
 func (sw *SlidingWindow) createSlotFromStart(start time.Time) *types.TimeSlot {
